@@ -36,7 +36,7 @@ RULE = ("all station numbers 0..255 (+256..300 and far values, refused) in 10 sp
         "x masks 0..32 (+33,34,99 refused) x ports {none,0,1,47807,47808,47809,47823,47824,65535,65536,70000}, "
         "expected values from the standard ipaddress module; octet strings of length 0..8 x 9 forms; tuples; "
         "every ordered pair inside pools of equivalent spellings + cross-pool pairs; near-miss mutations, random "
-        "strings and all strings up to length 5 (quick 4) over the 16-letter notation alphabet 0129*:./x'Xaf\\nA and blank. "
+        "strings and all strings up to length 5 (quick 4) over the 16-letter notation alphabet 0129*:./x'Xaf\\nA and blank, and all strings of length 6..7 (thorough ..8) over 01.:/*x. "
         "distinct = distinct (stream, model branch label of constructor/recogniser/printer or error kind)")
 TRUSTED = ["lean/BacVerif/Model/Addr.lean is a hand transcription of Address.decode_address/__str__/__eq__/_tuple and "
            "the typed constructors; tied by the correspondence streams",
@@ -703,9 +703,12 @@ def gen_malformed(ctx, rng):
 SHORT = "0129*:./x'Xaf\nA "
 
 
-def gen_short(length, lo, hi):
-    """all strings of the given length over SHORT whose index is in [lo,hi)"""
-    a = sorted(set(SHORT))
+SHORT_IP = "01.:/*x"       # long enough strings over this reach the dotted-quad branch ("1.1.1.1", "0:1.0.1.1/1")
+
+
+def gen_short(length, lo, hi, alphabet=SHORT):
+    """all strings of the given length over the alphabet whose index is in [lo,hi)"""
+    a = sorted(set(alphabet))
     out = []
     for idx in range(lo, hi):
         v, s = idx, []
@@ -761,8 +764,11 @@ def run_cases(ctx, stream, cases):
 
 
 def shard_short(ctx, spec):
-    length, lo, hi = spec
-    run_cases(ctx, "short-%d" % length, gen_short(length, lo, hi))
+    which, length, lo, hi = spec
+    if which == "n":
+        run_cases(ctx, "short-%d" % length, gen_short(length, lo, hi))
+    else:
+        run_cases(ctx, "short-ip-%d" % length, gen_short(length, lo, hi, SHORT_IP))
 
 
 def load_corpus():
@@ -815,14 +821,20 @@ def run(ctx):
     run_cases(ctx, "pairs", pairs)
     triples(ctx, pools, rng)
     run_cases(ctx, "malformed", gen_malformed(ctx, rng))
-    na = len(set(SHORT))
     specs = []
+    step = 40000
+    na = len(set(SHORT))
     for length in range(0, (4 if ctx.quick else 5) + 1):
         total = na ** length
-        step = 40000
-        specs += [(length, lo, min(lo + step, total)) for lo in range(0, total, step)]
+        specs += [("n", length, lo, min(lo + step, total)) for lo in range(0, total, step)]
+    ni = len(set(SHORT_IP))
+    for length in ([6, 7] if ctx.quick else [6, 7, 8]):
+        total = ni ** length
+        specs += [("ip", length, lo, min(lo + step, total)) for lo in range(0, total, step)]
     core.run_shards(ctx, "harness.c18", "shard_short", specs)
-    ctx.extra["exhaustive_short_strings"] = {"alphabet": "".join(sorted(set(SHORT))), "max_length": 4 if ctx.quick else 5}
+    ctx.extra["exhaustive_short_strings"] = {
+        "alphabet": "".join(sorted(set(SHORT))), "max_length": 4 if ctx.quick else 5,
+        "ip_alphabet": SHORT_IP, "ip_lengths": [6, 7] if ctx.quick else [6, 7, 8]}
 
 
 def search(ctx):
